@@ -291,10 +291,10 @@ V("c19-benign-kw-order", "C19", CFIT, "                method=args.method,\n    
 V("c06-table-order", "C06", DS, "            \"real\": [\"z'\", \"z re\", \"z_re\", \"zre\", \"real\", \"re\"],\n            \"magnitude\": [\"|z|\", \"z\", \"magnitude\", \"modulus\", \"mag\", \"mod\"],",
   "            \"magnitude\": [\"|z|\", \"z\", \"magnitude\", \"modulus\", \"mag\", \"mod\"],\n            \"real\": [\"z'\", \"z re\", \"z_re\", \"zre\", \"real\", \"re\"],", "fire", "shadowed")
 V("c06-alias-dropped", "C06", DS, "            \"phase\": [\"phase\", \"phz\", \"phi\"],", "            \"phase\": [\"phase\", \"phz\"],", "fire", "documented:phase:phi")
-V("c06-negation-wrong-flag", "C06", DS, "            if negative_columns[\"imaginary\"]:\n                im *= -1", "            if negative_columns[\"real\"]:\n                im *= -1", "fire", "_extract_data:imaginary")
-V("c06-negation-dropped", "C06", DS, "            if negative_columns[\"phase\"]:\n                phi *= -1\n\n", "", "fire", "_extract_data:phase")
-V("c06-comma-wrong-column", "C06", DS, "                im = float(row[column_indices[\"imaginary\"]].replace(\",\", \".\"))", "                im = float(row[column_indices[\"real\"]].replace(\",\", \".\"))", "fire", "_extract_data:imaginary")
-V("c06-degrees-inverted", "C06", DS, "        if degrees:\n            phase = deg_to_rad(phase)", "        if not degrees:\n            phase = deg_to_rad(phase)", "fire", "_extract_data:polar")
+V("c06-negation-wrong-flag", "C06", DS, "            if negative_columns[\"imaginary\"]:\n                im *= -1", "            if negative_columns[\"real\"]:\n                im *= -1", "fire", "_extract_data:semantics")
+V("c06-negation-dropped", "C06", DS, "            if negative_columns[\"phase\"]:\n                phi *= -1\n\n", "", "fire", "_extract_data:semantics")
+V("c06-comma-wrong-column", "C06", DS, "                im = float(row[column_indices[\"imaginary\"]].replace(\",\", \".\"))", "                im = float(row[column_indices[\"real\"]].replace(\",\", \".\"))", "fire", "_extract_data:semantics")
+V("c06-degrees-inverted", "C06", DS, "        if degrees:\n            phase = deg_to_rad(phase)", "        if not degrees:\n            phase = deg_to_rad(phase)", "fire", "_extract_data:semantics")
 V("c06-single-point", "C06", DS, "    decreasing_f: bool = len(frequency) > 1 and frequency[0] > frequency[1]", "    decreasing_f: bool = frequency[0] > frequency[1]", "fire", "_split_sweeps:index:frequency[1]")
 V("c06-cut-mismatch", "C06", DS, "        real = real[i:]\n", "        real = real[i - 1:]\n", "fire", "_split_sweeps:partition")
 V("c06-mpt-sign", "C06", "data/formats/mpt.py", "        imag.append(-_parse_string_as_float(columns[2]))", "        imag.append(_parse_string_as_float(columns[2]))", "fire", "mpt:columns")
